@@ -400,6 +400,34 @@ def knob_zero(rep, prog, main, rule):
     return n
 
 
+def store_order(rep, prog, main, rule='R20d'):
+    """boost::program_options keeps the FIRST value stored for an option: the command line must be stored before any other source (environment,
+    config file), otherwise that source silently overrides an explicit --cores n"""
+    cfg = main.cfg
+    stores = [n for n in main.walk() if n.k == 'CallExpr' and n.callee and n.callee['g'] == 'boost::program_options::store' and n.args()]
+    if not stores:
+        return 0
+
+    def source(n):
+        for x in [n.args()[0].strip_all()] + list(n.args()[0].walk()):
+            if x.k in ('CallExpr', 'CXXMemberCallExpr') and x.callee and x.callee['name'] in ('parse_environment', 'parse_config_file'):
+                return x.callee['name']
+        return 'command line'
+    what = 'the command line is the first source stored into the variables_map (the first stored value of an option wins)'
+    cmd = [n for n in stores if source(n) == 'command line']
+    other = [n for n in stores if source(n) != 'command line']
+    if not other:
+        rep.ok(rule, stores[0], main, what, 'only the command line is stored')
+        return 1
+    bad = [o for o in other if any(cfg.reaches(o, c) and not cfg.reaches(c, o) for c in cmd)]
+    if bad:
+        rep.violation(rule, bad[0], main, what, 'values from %s are stored before the command line: a preset there overrides an explicit --cores n (and every other '
+                      'option), so the limit in force is not the requested one' % source(bad[0]), key='%s|%s|store-order' % (rule, os.path.basename(prog.tu)))
+    else:
+        rep.ok(rule, stores[0], main, what, 'other sources are stored after the command line (fallback only)')
+    return 1
+
+
 def _atom(leaf):
     a = common.option_atom(leaf)
     if a is not None:
@@ -426,9 +454,13 @@ def run(rep, tier):
     rep.saw_programs(progs.values())
     knob_seen = 0
     mains_seen = 0
+    rep.rule('R20d', 'the command line is stored into the variables_map before any other option source', floor=2)
     for tu, prog in progs.items():
         knob_seen += r20a(rep, prog)
         mains_seen += r20b(rep, prog)
+        for m_ in common.mains(prog):
+            if any(s_.value and re.match(r'^cores(,|$)', s_.value) for s_ in ex.string_literals(m_.body)):
+                store_order(rep, prog, m_)
     if knob_seen == 0:
         rep.analysis_broken('no tbb::global_control / task_scheduler_init creation reachable from %s (anchor vanished)' % common.KNOB)
     # positive examples
@@ -437,6 +469,9 @@ def run(rep, tier):
     prep = type(rep)(rep.prop, rep.tier)
     r20a(prep, pp)
     r20b(prep, pp)
+    for m_ in common.mains(pp):
+        store_order(prep, pp, m_)
+    rep.positive('R20d', 'witness/positive/c20_local_control.cc', any(i.status == 'violation' and i.rule == 'R20d' for i in prep.instances.values()))
     rep.positive('R20a', 'witness/positive/c20_local_control.cc', any(i.status == 'violation' and i.rule == 'R20a' for i in prep.instances.values()))
     rep.positive('R20b', 'witness/positive/c20_local_control.cc', any(i.status == 'violation' and i.rule == 'R20b' for i in prep.instances.values()))
     rep.positive('R20c', 'witness/positive/c20_local_control.cc', any(i.status == 'violation' and i.rule == 'R20c' for i in prep.instances.values()))
